@@ -137,6 +137,12 @@ class RefSer:
         if k == "lit":
             return v
         if k == "enum":
+            if s.opt("mixin"):
+                # documented: an Enum that is also an int / str is already JSON data; the
+                # member itself (an instance of the primitive) or its plain value
+                from vf.oracle.deser import AnyOf
+
+                return AnyOf([self.any(v.value), v])
             return self.any(v.value)
         if k == "obj":
             return self.ser_obj(s, v)
